@@ -67,6 +67,68 @@ def gen_params(rng, size):
     return offset, length, block, alg
 
 
+OFFS = ("0", "aligned inside", "unaligned inside", "== size", "size+1", "far past")
+LENS = ("0", "inside", "to EOF exactly", "past EOF")
+BLKS = ("0", "256", "300", "512", "> range")
+CELLS = [(o, l, b) for o in OFFS for l in LENS for b in BLKS]
+
+
+def cell_params(rng, size, cell):
+    """Concrete (offset, length, block) for one explicit cell; `size` >= 2000."""
+    o, l, b = cell
+    unit = {"256": 256, "300": 300, "512": 512}.get(b, 256)
+    if o == "0":
+        offset = 0
+    elif o == "aligned inside":
+        offset = unit * rng.randint(1, max(1, (size - 600) // unit))
+    elif o == "unaligned inside":
+        offset = unit * rng.randint(0, max(0, (size - 600) // unit)) + rng.randint(1, unit - 1)
+    elif o == "== size":
+        offset = size
+    elif o == "size+1":
+        offset = size + 1
+    else:
+        offset = size + rng.choice([70000, 1 << 20, 1 << 40])
+    rest = max(size - offset, 0)
+    if l == "0":
+        length = 0
+    elif l == "inside":
+        length = rng.randint(1, rest - 1) if rest > 1 else 1
+    elif l == "to EOF exactly":
+        length = rest if rest > 0 else rng.choice([1, 300])
+    else:
+        length = rest + rng.choice([1, 255, 300, 70000])
+    rng_len = rest if length == 0 else min(length, rest)
+    block = {"0": 0, "256": 256, "300": 300, "512": 512}.get(b)
+    if block is None:
+        block = max(256, rng_len + rng.randint(1, 1000))
+    return offset, length, block, rng.choice(["md5", "sha1"])
+
+
+def server_spins(ctx, bench, desc):
+    """Bounded progress for a request that produces neither reads nor an answer: the server thread is sampled inside
+    _check_file, not parked, with no handle read and no packet for 15 s (hashing <= 400 KiB takes milliseconds)."""
+    import sys
+    import time
+    import traceback
+
+    p0, r0 = bench.npackets(), bench.mon.handle_reads
+    seen = []
+    for _ in range(6):
+        time.sleep(2.5)
+        fr = sys._current_frames().get(bench.server_thread.ident)
+        names = [f.name for f in traceback.extract_stack(fr)] if fr is not None else []
+        del fr
+        seen.append("_check_file" in names and not bench.server_idle())
+    if all(seen) and bench.npackets() == p0 and bench.mon.handle_reads == r0:
+        ctx.count("livelocks_detected")
+        ctx.violation("check-file never answers: server loops in _check_file without reading and without progress",
+                      "the request was neither answered nor did the server read the file for 27 s; its thread was inside "
+                      "_check_file at every sample", dict(case=desc))
+        return True
+    return False
+
+
 def classify_reads(reads, offset, end_req, block):
     """Name the first anomaly in the server's handle reads for this request."""
     if not reads:
@@ -107,8 +169,10 @@ class _Call:
         return not self.t.is_alive()
 
 
-def one_case(ctx, bench, f, data, size, params, shortdesc, transport="pipe"):
+def one_case(ctx, bench, f, data, size, params, shortdesc, transport="pipe", cell=None):
     offset, length, block, alg = params
+    if cell is not None:
+        ctx.count("cell %s | %s | %s" % cell)
     strict = block >= 256
     want, end = expected(data, offset, length, block, alg) if strict else (None, None)
     nonempty = strict and offset < end
@@ -120,6 +184,8 @@ def one_case(ctx, bench, f, data, size, params, shortdesc, transport="pipe"):
     nspin = len(mon.spins) if mon else 0
     p0 = bench.npackets() if bench is not None else 0
     call = _Call(lambda: f.check(alg, offset, length, block))
+    if not call.wait(12.0) and bench is not None and server_spins(ctx, bench, desc):
+        return "wedged"
     if not call.wait(CALL_TIMEOUT):
         ctx.inconclusive("check-file call still running after %ds (no spin evidence from the read monitor): %r"
                          % (CALL_TIMEOUT, desc))
@@ -149,8 +215,16 @@ def one_case(ctx, bench, f, data, size, params, shortdesc, transport="pipe"):
     if not strict:
         ctx.count("liveness_only_cases")
         if block == 0 and call.exc is None and isinstance(call.res, bytes):
+            # block size 0 = one hash over the range: a status is accepted (small ranges are refused by design),
+            # but a digest that is returned must be the hash of [offset, end)
             w0, e0 = expected(data, offset, length, max(len(data), 1) + (1 << 41), alg)
-            ctx.count("block0_replies_equal_single_hash" if call.res == w0 else "block0_replies_other")
+            ctx.count("block0_digests_compared")
+            if call.res != w0:
+                ctx.violation("check-file with block size 0: the digest is not the hash of [offset, end of range)",
+                              "one-hash reply differs from hashlib over the requested range (%d bytes returned, %d "
+                              "expected)" % (len(call.res), len(w0)), dict(case=desc, got=call.res[:40], want=w0[:40]))
+                return "bad"
+            ctx.count("block0_replies_equal_single_hash")
         return "ok"
     if call.exc is not None:
         if isinstance(call.exc, IOError) and not nonempty:
@@ -231,7 +305,7 @@ def run_pipe(ctx, ncases_total):
                 cap = int(shortdesc[3:])
                 bench.mon.short = lambda n, cap=cap: cap
             for _fi in range(3):
-                size = gen_size(rng)
+                size = gen_size(rng) if _fi == 0 else rng.choice([2000, 5000, 40000, K64 + 1, 100000, 2 * K64, 140000, 300000])
                 data = rng.randbytes(size)
                 name = "f%d" % _fi
                 with open(os.path.join(root, name), "wb") as fh:
@@ -241,8 +315,13 @@ def run_pipe(ctx, ncases_total):
                 for _ in range(rng.randint(6, 14)):
                     if done >= ncases_total:
                         break
-                    params = gen_params(rng, size)
-                    r = one_case(ctx, bench, f, data, size, params, shortdesc)
+                    cell = None
+                    if done % 2 == 1 and size >= 2000:
+                        cell = CELLS[(done // 2 + ctx.shard * 17) % len(CELLS)]
+                        params = cell_params(rng, size, cell)
+                    else:
+                        params = gen_params(rng, size)
+                    r = one_case(ctx, bench, f, data, size, params, shortdesc, cell=cell)
                     done += 1
                     if r == "wedged":
                         wedged = True
@@ -300,6 +379,9 @@ def run(ctx):
     ok = run_pipe(ctx, n)
     if ok and not ctx.quick and ctx.shard % 4 == 0:
         ctx.guard(run_ssh, ctx, 12)
+    for cell in CELLS:
+        ctx.require("cell %s | %s | %s" % cell, ctx.pick(2, 25))
+    ctx.require("block0_digests_compared", ctx.pick(40, 600))
     ctx.require("check_calls_completed", ctx.pick(600, 6000))
     ctx.require("digest_comparisons", ctx.pick(300, 4000))
     ctx.require("server_handle_reads_logged", ctx.pick(1000, 10000))
